@@ -578,6 +578,37 @@ func indirectUseControls() []*RejectCase {
 		b.Inj("Init", i, false, false, nil, SetRef(s.ID))
 		add(b, "set-via-binding")
 	}
+	// a field provider listing several fields of which only one (two) is needed, listed directly
+	// in wire.Build: the item contributes
+	for k, v := range []struct {
+		name    string
+		ptrPar  bool
+		listed  []string
+		want    string
+		wantPtr bool
+	}{
+		{"first-of-two", false, []string{"A", "B"}, "A", false},
+		{"second-of-two", false, []string{"A", "B"}, "B", false},
+		{"middle-of-three-pointer-parent", true, []string{"A", "B", "C"}, "B", false},
+		{"pointer-to-last-of-three", true, []string{"A", "B", "C"}, "C", true},
+	} {
+		b := NewPB(fmt.Sprintf("iu_fields%d", k), "app")
+		fts := map[string]*Ty{"A": b.Carrier(0, "FA"), "B": b.Carrier(0, "FB"), "C": b.Carrier(0, "FC")}
+		par := b.NamedOf(0, "Par", StructOf(idField, FieldT{Name: "A", Ty: fts["A"]}, FieldT{Name: "B", Ty: fts["B"]}, FieldT{Name: "C", Ty: fts["C"]}), "parent")
+		pt := par
+		if v.ptrPar {
+			pt = PtrTo(par)
+		}
+		fp := b.Func(0, "NewPar", pt, false, false)
+		fp.Stub = true
+		fl := b.Fields(pt, v.listed...)
+		res := fts[v.want]
+		if v.wantPtr {
+			res = PtrTo(res)
+		}
+		b.Inj("Init", res, false, false, nil, refs(fp, fl)...)
+		add(b, "one-of-several-listed-fields/"+v.name)
+	}
 	// chains of interface bindings inside ONE set (I2 -> I1 -> *C, in every listing order): every
 	// link contributes
 	for k, order := range [][]int{{0, 1}, {1, 0}, {0, 1, 2}, {2, 1, 0}, {1, 2, 0}} {
